@@ -35,6 +35,22 @@ CLAIMED = {
         "flow. Not modelled: eups distrib / admin commands; writes to EUPS_USERDATA and the system temp dir are "
         "outside the property (listed as not_stack_records).",
         "DESIGN.md section 5, C15"),
+    "C08": (
+        "Coq proof that every crash point of the write-temporary-then-rename protocol leaves the records as after a "
+        "whole number of record-level effects + crash injection at every file-system effect of the real operations",
+        "Props/C08.v proves for any fs, any list of record-level effects and any number k of completed system calls of "
+        "the repaired protocol: the main (non temporary) records equal those after some prefix of the effects; hence "
+        "each record is in its old form or a complete form the operation wrote (never truncated), untargeted records "
+        "are untouched, and the in-place protocol of the pinned tree is refuted by witness. The tie: the last operation "
+        "of generated histories is run on the real code and killed (os._exit) before every one of its file-system "
+        "effects under ups_db; the surviving database is compared with the model's crash_state for the effect list "
+        "observed in the completed run, and the property's own oracle (fresh reader succeeds, every record old or new, "
+        "bystanders unchanged) is evaluated on it.",
+        "Trusted: Coq kernel, extraction, harness; POSIX atomicity of rename/unlink/mkdir/rmdir and 'a crash is a stop "
+        "between two system calls' are assumptions (no fsync/power-loss semantics); the effect list fed to the model is "
+        "reconstructed from the real trace (the Db-level effect model of C06 is not yet composed with it). Open "
+        "finding D20 (tag move = unassign then assign).",
+        "DESIGN.md section 5, C08"),
 }
 
 NOT_YET = {}
